@@ -49,7 +49,10 @@ def run(name, tier, seed):
                                 'tags': ['C06', 'native-sweep'], 'function': 'zipf_replay sweep', 'line': None, 'file': 'zipf_replay.cpp',
                                 'native': {'reproduced': True, 'command': 'zipf_replay sweep %s %s %d %d' % (cls, ty, seed + 1, count), 'observed': [l]}})
                 if rc not in (0, 1):
-                    raise RuntimeError('sweep %s %s rc=%d: %s' % (cls, ty, rc, out[-300:]))
+                    # the real generator crashed / threw / hung: that is an observable failure of the real code, not an infrastructure problem
+                    obs.append({'name': 'zipf_sweep', 'description': '[C06][native-sweep] the real %s generator (%s) terminated abnormally (rc=%d): %s' % (cls, ty, rc, ' '.join(out[-200:].split())),
+                                'status': 'FAILURE', 'tags': ['C06', 'native-sweep'], 'function': 'zipf_replay sweep', 'line': None, 'file': 'zipf_replay.cpp',
+                                'native': {'reproduced': True, 'command': 'zipf_replay sweep %s %s %d %d' % (cls, ty, seed + 1, count), 'observed': [out[-300:]]}})
         obs.append({'name': 'zipf_sweep', 'description': '[C06][native-sweep] %d samples of the real generators (random ranges incl. negative/near-limit bounds, engine words on/next to CDF breakpoints) satisfy the bracket property' % n,
                     'status': 'SUCCESS', 'tags': ['C06', 'native-sweep'], 'function': 'zipf_replay sweep', 'line': None, 'file': 'zipf_replay.cpp', 'weight': n})
         return obs
